@@ -16,7 +16,7 @@ RELEVANT = {
     "C05": {"layout", "frees", "alloc", "align", "size", "leak", "drops", "baddrop", "overrun", "drain", "poison"},
     "C06": STRUCT | {"value", "ident", "contents", "drops", "frees", "drain", "stray", "baddrop", "poison", "panicked", "count", "overrun"},
     "C07": STRUCT | {"baddrop", "drops", "frees", "drain", "poison", "count", "panicked", "stray", "value", "leak", "exit", "overrun"},
-    "C08": STRUCT | {"verdict", "ncl", "seen", "value", "ident", "count", "stray", "drops", "frees", "panicked", "drain"},
+    "C08": STRUCT | {"verdict", "ncl", "seen", "value", "ident", "count", "stray", "drops", "frees", "panicked", "drain", "baddrop", "poison"},
     "C09": STRUCT | {"verdict", "out", "drops", "frees", "count", "ncl", "seen", "drain", "stray", "baddrop", "panicked"},
     "C10": STRUCT | {"touch", "count", "value", "ident", "thin", "addr", "heap", "panicked", "drops", "frees", "drain", "baddrop", "poison", "stray", "contents", "overrun"},
     "C11": STRUCT | {"heap", "addr", "count", "value", "width", "bits", "verdict", "union"},
